@@ -16,6 +16,7 @@ pub mod c14;
 pub mod c15;
 pub mod c16;
 pub mod c17;
+pub mod c18;
 pub mod common;
 
 use crate::engine::{Ctx, Violation};
@@ -39,7 +40,12 @@ pub fn run(ctx: &Ctx) -> bool {
         "C15" => c15::run(ctx),
         "C16" => c16::run(ctx),
         "C17" => c17::run(ctx),
+        "C18" => c18::run(ctx),
         _ => return false,
+    }
+    // Engine C: coverage-guided campaign over the same decoder and oracle (thorough tier)
+    if !ctx.quick() {
+        crate::fuzzapi::campaign(ctx, ctx.scale(0, 1_600_000));
     }
     true
 }
@@ -66,6 +72,7 @@ pub fn replay(prop: &str, check: &str, payload: &serde_json::Value) -> Option<Ve
         "C15" => c15::replay(case),
         "C16" => c16::replay(case),
         "C17" => c17::replay(case),
+        "C18" => c18::replay(case),
         _ => return None,
     })
 }
